@@ -50,6 +50,8 @@ ASSUMPTIONS = [
     "rules of the statement only",
     "a complete leading module may take part in a merge only when it opens with an adenylation, acyltransferase or "
     "Interface domain (the documented fused starters, frozen here; CAL_domain and SAT are explicit starters)",
+    "the saved forms of a record-level module feature are its Biopython feature and the GenBank text of the record "
+    "(Bio.SeqIO write, parse, Record.from_biopython); the order of module features inside a record is not judged",
     "merging is emulated exactly as generate_domains calls combine_modules (argument order chosen by the strand of the "
     "later gene); the pipeline subcheck runs generate_domains itself with the three HMMER front ends replaced",
 ]
@@ -1156,7 +1158,7 @@ def enum_pipeline(thorough: bool):
                 continue
             done.add((up, down))
             for number, middle in enumerate(MIDDLES):
-                if number >= 2 and len(up) + len(down) <= 2:
+                if number >= 2 and len(up) + len(down) <= 2 or number >= 3 and not thorough:
                     continue
                 yield {"genes": [tokens_gene(up, "g0"), middle_gene(middle, "g1"), tokens_gene(down, "g2")],
                        "strands": [1, 1, 1], "kind": "middle"}
